@@ -57,6 +57,15 @@ B = {"op": "b"}
 R = {"op": "r"}
 
 
+def C(*post):
+    """a native run during which a writer commits `post` (forced schedule, see the driver)"""
+    return {"op": "c", "post": [dict(w) for w in post]}
+
+
+D = {"op": "d"}   # Store.Delete() = delete all datasets
+F = {"op": "f"}   # rsync-mode run whose rsync exits non-zero
+
+
 def I(idstr):
     return {"op": "i", "id": idstr}
 
@@ -69,9 +78,15 @@ IDS = ["1790000000000000001", "1790000000000000002", "17900000000000000010", "hu
        "hub", "", "0", "00", "4711", "4711\n"]
 
 
-def mk(ops, foreign=False, sid=None, locid0="4711"):
+def mk(ops, foreign=False, sid=None, locid0="4711", rsync=False):
     """sid None = the hub generates its DATAHUB_BACKUPID; foreign = location pre-filled with id file locid0 + files"""
-    return {"ops": [dict(o) for o in ops], "foreign": foreign, "sid": sid, "locid0": locid0 if foreign else ""}
+    return {"ops": [dict(o) for o in ops], "foreign": foreign, "sid": sid, "locid0": locid0 if foreign else "",
+            "rsync": rsync}
+
+
+def burst(rng_or_none, n, ds=0):
+    """n single-entity batches (about 7 Badger versions each): pushes the store version over 127 / 255 / 65535"""
+    return [W(ds, i % 6, (i * 5 + 1) % 8) for i in range(n)]
 
 
 def witness_cases():
@@ -97,6 +112,18 @@ def witness_cases():
         mk([B, R, B], foreign=True, sid="", locid0="0"),
         mk([W(1, 0, 1), B, R, W(1, 0, 2), B], foreign=True, sid="", locid0=""),
         mk([B], foreign=True, sid="4711\n", locid0="4711"),
+        # a writer commits while a run is in progress; then a quiet run
+        mk([W(0, 1, 3), C(W(0, 2, 4), W(1, 0, 1)), B]),
+        mk([W(0, 1, 3), B, W(0, 1, 4), C(W(0, 2, 4)), R, C(W(1, 3, 3), W(0, 2, 5, True)), B]),
+        # delete all datasets between runs: the emptied store is a different store
+        mk([W(0, 1, 3), B, D, W(1, 2, 4), B]),
+        mk([W(0, 1, 3), B, W(0, 2, 2), D, W(1, 2, 4), B, R, B, W(0, 0, 0), B]),
+        # rsync mode, with a failing rsync followed by good runs
+        mk([W(0, 1, 3), F, W(0, 2, 4), B], rsync=True),
+        mk([W(0, 1, 3), B, W(0, 2, 4), F, B, R, F, W(1, 1, 1), B, B], rsync=True),
+        # store version beyond 127 / 255 at the time of a run, then restart, write, run
+        mk(burst(None, 20) + [B, R, W(1, 1, 1), B]),
+        mk(burst(None, 40) + [B, R, W(1, 1, 1), W(1, 2, 2), B, B]),
     ]
 
 
@@ -151,15 +178,43 @@ def gen(rng, tier):
         for _ in range(n_pre):      # pre-filled location, ids from the adversarial alphabet
             sid = rng.choice([None] + IDS)
             out.append(mk(rand_hist(rng, 6, env=1, sid=sid) + [B], foreign=True, sid=sid, locid0=rand_id(rng, sid)))
+    def special(n_conc, n_del, n_rsync, n_burst):
+        for _ in range(n_conc):     # some runs have a writer committing during the run
+            ops = rand_hist(rng, 9)
+            ops = [C(*[rand_w(rng) for _ in range(rng.range(1, 3))]) if (o["op"] == "b" and rng.chance(2, 3)) else o
+                   for o in ops]
+            if not any(o["op"] == "c" for o in ops):
+                ops.append(C(rand_w(rng)))
+            if rng.chance(2, 3):
+                ops.append(B)       # a quiet run at the end: the restored hub must then be complete
+            out.append(mk(ops))
+        for _ in range(n_del):      # Store.Delete after at least one run, no environment steps
+            pre = rand_hist(rng, 5) + [B] + rand_hist(rng, 3)
+            post = rand_hist(rng, 6)
+            if not any(o["op"] == "b" for o in post):
+                post.append(B)
+            out.append(mk(pre + [D] + post))
+        for _ in range(n_rsync):    # rsync mode with failing runs
+            ops = [F if (o["op"] == "b" and rng.chance(1, 3)) else o for o in rand_hist(rng, 9)]
+            if not any(o["op"] == "f" for o in ops):
+                ops.insert(rng.below(len(ops) + 1), F)
+            ops += [rand_w(rng), B]
+            out.append(mk(ops, rsync=True))
+        for _ in range(n_burst):    # version boundaries of the cursor encoding
+            n = rng.choice([17, 18, 19, 22, 35, 36, 37, 40])
+            tail = rand_hist(rng, 5)
+            out.append(mk(burst(rng, n, rng.below(2)) + [B, R, rand_w(rng), B] + tail))
     if tier == "quick":
-        for _ in range(100):
+        for _ in range(80):
             out.append(mk(rand_hist(rng, 11), sid=rng.choice([None, None, None] + IDS)))
-        idcases(45, 25)
+        idcases(40, 20)
+        special(14, 10, 10, 4)
         return out
     if tier == "search":
         for _ in range(120):
             out.append(mk(rand_hist(rng, 9)))
         idcases(60, 40)
+        special(30, 20, 20, 8)
         return out
     # thorough: every shape over {w,b,r} up to length 6, PRNG payloads
     for n in range(1, 7):
@@ -171,11 +226,14 @@ def gen(rng, tier):
     for _ in range(200):
         out.append(mk(rand_hist(rng, 14)))
     idcases(300, 150)
+    special(120, 80, 60, 30)
+    # one history that takes the store version past 65535 (about 9400 single-entity batches)
+    out.append(mk(burst(rng, 9500) + [B, R, W(1, 1, 1), B]))
     return out
 
 
 DIED = {"maxv": [], "cursor": [], "disk": [], "bres": [], "grew": [], "snap": None, "hassnap": False,
-        "restored": None, "hasrest": False, "richeq": False, "raweq": False, "sid": "", "locid": [], "touched": []}
+        "restored": None, "hasrest": False, "richeq": False, "raweq": False, "sid": "", "locid": [], "touched": [], "sidv": [], "running": [], "diskraw": [], "post": []}
 
 
 def run(binp, cases):
@@ -215,8 +273,17 @@ def term(c, o):
         m = maxv[i + 1]
         if op["op"] == "w":
             t_ops.append("OWrite %d %d %d %d %s" % (m, op["ds"], op["k"], op["v"], vlib.coq_bool(op.get("del", False))))
-        elif op["op"] == "b":
+        elif op["op"] in "bcf" and c.get("rsync"):
+            t_ops.append("OBackupRsync %s" % vlib.coq_bool(op["op"] != "f"))
+        elif op["op"] == "c" and good and i < len(o["post"]) and o["post"][i]:
+            # the writes the concurrent writer committed during this run (driver: Post[i] belongs to op i)
+            ws = ["(%d, %d, %d, %d, %s)" % (st, w["ds"], w["k"], w["v"], vlib.coq_bool(w.get("del", False)))
+                  for st, w in zip(o["post"][i], op["post"])]
+            t_ops.append("OBackupConc %s" % vlib.coq_list(ws))
+        elif op["op"] in "bcf":
             t_ops.append("OBackup")
+        elif op["op"] == "d":
+            t_ops.append("ODeleteAll %d %s" % (m, bts(o["sidv"][i + 1]) if good else "[]"))
         elif op["op"] == "i":
             t_ops.append("OSetLocId %s" % bts(op["id"]))
         elif op["op"] == "x":
@@ -224,17 +291,24 @@ def term(c, o):
         else:
             t_ops.append("ORestart %d" % m)
     steps = []
+    rawl = []
     if good:
         for i in range(1, len(ops) + 1):
             d = o["disk"][i]
-            steps.append("{| x_cursor := %d; x_disk := %s; x_res := %d; x_grew := %s; x_locid := %s; x_touched := %s |}" % (
-                o["cursor"][i], opt(d >= 0, "%d" % max(d, 0)), o["bres"][i], vlib.coq_bool(o["grew"][i]),
-                optb(o["locid"][i]), vlib.coq_bool(o["touched"][i])))
-    return ("({| c_m0 := %d; c_ops := %s; c_sid := %s; c_foreign := %s; c_locid0 := %s; o_cursor0 := %d; o_locid0 := %s; "
-            "o_steps := %s; o_snap := %s; o_restored := %s; o_rich_eq := %s; o_raw_eq := %s |})%%N" % (
-                maxv[0], vlib.coq_list(t_ops), bts(o.get("sid", "") if good else ""), vlib.coq_bool(c.get("foreign", False)),
+            steps.append("{| x_cursor := %d; x_disk := %s; x_res := %d; x_grew := %s; x_locid := %s; x_touched := %s; "
+                         "x_sid := %s; x_running := %s |}" % (
+                             o["cursor"][i], opt(d >= 0, "%d" % max(d, 0)), o["bres"][i], vlib.coq_bool(o["grew"][i]),
+                             optb(o["locid"][i]), vlib.coq_bool(o["touched"][i]), bts(o["sidv"][i]),
+                             vlib.coq_bool(o["running"][i])))
+            raw = o["diskraw"][i]
+            rawl.append("None" if raw is None else "(Some %s)" % vlib.coq_list(["%d" % b for b in raw]))
+    return ("({| c_m0 := %d; c_ops := %s; c_sid := %s; c_rsync := %s; c_foreign := %s; c_locid0 := %s; o_cursor0 := %d; "
+            "o_locid0 := %s; o_steps := %s; o_diskraw := %s; o_snap := %s; o_restored := %s; o_rich_eq := %s; "
+            "o_raw_eq := %s |})%%N" % (
+                maxv[0], vlib.coq_list(t_ops), bts(o.get("sid", "") if good else ""), vlib.coq_bool(c.get("rsync", False)),
+                vlib.coq_bool(c.get("foreign", False)),
                 bts(c.get("locid0", "") or ""), o["cursor"][0] if good else 0,
-                optb(o["locid"][0]) if good else "None", vlib.coq_list(steps),
+                optb(o["locid"][0]) if good else "None", vlib.coq_list(steps), vlib.coq_list(rawl),
                 opt(o.get("hassnap"), rows(o.get("snap") or [])),
                 opt(o.get("hasrest"), rows(o.get("restored") or [])),
                 vlib.coq_bool(o.get("richeq", False)), vlib.coq_bool(o.get("raweq", False))))
